@@ -66,6 +66,13 @@ func (db *DB) handleSubscription(ctx context.Context, r *request.Request) (<-cha
 			}
 			ctx := InitContext(ctx, txn)
 
+			// An update of a document of another collection is not a change of this selection.
+			col, err := db.getCollectionByName(ctx, subRequest.Collection)
+			if err == nil && evt.CollectionID != "" && col.Version().CollectionID != evt.CollectionID {
+				txn.Discard(ctx)
+				continue
+			}
+
 			p := planner.New(ctx, identity.FromContext(ctx), db.documentACP, db)
 			s := subRequest.ToSelect(evt.DocID, evt.Cid.String())
 
